@@ -42,6 +42,7 @@ type PropSpec struct {
 	Obligations []Obligation
 	Assumptions []string
 	Outside     []string // what lies outside the bounds
+	NeedsGen    bool     // needs the natively generated tile-matrix-set data
 	Native      func(c *checkCtx) []NativeResult
 }
 
@@ -165,6 +166,20 @@ func cmdCheck(args []string) int {
 	}
 	c.overlay = ov
 	t0 := time.Now()
+	if spec.NeedsGen {
+		if err := c.generate(); err != nil {
+			fmt.Fprintln(os.Stderr, "generate:", err)
+			fmt.Printf("CHECK-ERROR property=%s native data generation failed\n", id)
+			return 2
+		}
+	} else {
+		// harness packages that reference the generated data must not be loaded without it
+		for k := range c.overlay {
+			if !strings.Contains(k, "/morton/") {
+				delete(c.overlay, k)
+			}
+		}
+	}
 
 	progs := map[string]*Program{}
 	var results []oblResult
@@ -471,20 +486,22 @@ func nativeReplay(repo, hdir, work, pkg, harness, replayPath string) (string, st
 	os.MkdirAll(work, 0o755)
 	repl := map[string]string{}
 	pkgName := ""
-	filepath.Walk(hdir, func(path string, info os.FileInfo, err error) error {
-		if err != nil || info.IsDir() || !strings.HasSuffix(path, ".go") {
-			return nil
-		}
-		rel, _ := filepath.Rel(hdir, path)
-		repl[filepath.Join(repo, rel)] = path
-		if filepath.Dir(rel) == pkg && pkgName == "" {
-			b, _ := os.ReadFile(path)
-			if m := regexp.MustCompile(`(?m)^package (\w+)`).FindSubmatch(b); m != nil {
-				pkgName = string(m[1])
+	for _, root := range []string{hdir, filepath.Join(work, "gen")} {
+		filepath.Walk(root, func(path string, info os.FileInfo, err error) error {
+			if err != nil || info.IsDir() || !strings.HasSuffix(path, ".go") {
+				return nil
 			}
-		}
-		return nil
-	})
+			rel, _ := filepath.Rel(root, path)
+			repl[filepath.Join(repo, rel)] = path
+			if filepath.Dir(rel) == pkg && pkgName == "" {
+				b, _ := os.ReadFile(path)
+				if m := regexp.MustCompile(`(?m)^package (\w+)`).FindSubmatch(b); m != nil {
+					pkgName = string(m[1])
+				}
+			}
+			return nil
+		})
+	}
 	tmpl, err := os.ReadFile(filepath.Join(hdir, "replay_test.go.tmpl"))
 	if err != nil {
 		return "error", err.Error()
@@ -546,6 +563,11 @@ func cmdReplay(repo, verif, path string) int {
 	}
 	work := filepath.Join(verif, ".work", fmt.Sprintf("replay-%d", os.Getpid()))
 	defer os.RemoveAll(work)
+	gc := &checkCtx{repo: repo, verif: verif, hdir: filepath.Join(verif, "harness"), work: work, overlay: map[string][]byte{}}
+	if err := gc.generate(); err != nil {
+		fmt.Fprintln(os.Stderr, "generate:", err)
+		return 2
+	}
 	status, out := nativeReplay(repo, filepath.Join(verif, "harness"), work, d.Package, d.Harness, path)
 	fmt.Println(out)
 	fmt.Printf("replay of %s (%s, assert %s): %s\n", path, d.Harness, d.Assert, status)
@@ -570,6 +592,57 @@ func mapOrderFor(kind string) func(e *Exec, entries []*mapEntry) []*mapEntry {
 				r[len(en)-1-i] = en[i]
 			}
 			return r
+		}
+	}
+	return nil
+}
+
+// packages that get a copy of the generated tile-matrix-set data file
+var genPackages = map[string]string{"tms20": "tms20", "pointindex": "pointindex", "snap": "snap"}
+
+// generate runs the native helper (go test -overlay in package tms20 of the current tree) that prints the embedded
+// tile matrix sets as Go literals, and instantiates the result for every harness package.
+func (c *checkCtx) generate() error {
+	os.MkdirAll(c.work, 0o755)
+	repl := map[string]string{}
+	filepath.Walk(filepath.Join(c.hdir, "tms20"), func(path string, info os.FileInfo, err error) error {
+		if err != nil || info.IsDir() || !strings.HasSuffix(path, "zz_verif_gen_test.go") {
+			return nil
+		}
+		repl[filepath.Join(c.repo, "tms20", filepath.Base(path))] = path
+		return nil
+	})
+	ovb, _ := json.Marshal(map[string]any{"Replace": repl})
+	ovf := filepath.Join(c.work, "gen_overlay.json")
+	os.WriteFile(ovf, ovb, 0o644)
+	out := filepath.Join(c.work, "tmsdata.tmpl")
+	cmd := exec.Command("timeout", "300", "go", "test", "-vet=off", "-count=1", "-overlay", ovf, "-run", "^TestVerifGenTMS$", "./tms20")
+	cmd.Dir = c.repo
+	cmd.Env = append(os.Environ(), "GOFLAGS=-mod=mod", "GOPROXY=off", "GOSUMDB=off", "GOTOOLCHAIN=local", "VERIF_GEN_OUT="+out)
+	b, err := cmd.CombinedOutput()
+	if err != nil {
+		return fmt.Errorf("native generator failed: %v\n%s", err, tail(string(b), 20))
+	}
+	tmpl, err := os.ReadFile(out)
+	if err != nil {
+		return fmt.Errorf("native generator wrote nothing: %v\n%s", err, tail(string(b), 20))
+	}
+	for dir, name := range genPackages {
+		src := string(tmpl)
+		src = strings.ReplaceAll(src, "PKGNAME", name)
+		if name == "tms20" {
+			src = strings.ReplaceAll(src, "IMPORT\n", "")
+			src = strings.ReplaceAll(src, "TMSQ.", "")
+		} else {
+			src = strings.ReplaceAll(src, "IMPORT\n", "import \"github.com/pdok/texel/tms20\"\n\n")
+			src = strings.ReplaceAll(src, "TMSQ.", "tms20.")
+		}
+		d := filepath.Join(c.work, "gen", dir)
+		os.MkdirAll(d, 0o755)
+		fp := filepath.Join(d, "zz_verif_tmsdata.go")
+		os.WriteFile(fp, []byte(src), 0o644)
+		if c.overlay != nil {
+			c.overlay[filepath.Join(c.repo, dir, "zz_verif_tmsdata.go")] = []byte(src)
 		}
 	}
 	return nil
